@@ -10,6 +10,7 @@ import (
 	"fmt"
 	"os"
 	"sort"
+	"strings"
 	"time"
 
 	"github.com/markkurossi/mpc/p2p"
@@ -30,6 +31,9 @@ type cs struct {
 	Slow   []int `json:"slow,omitempty"` // parties whose threads run only when nothing else can (baseline speeds)
 	Fast   []int `json:"fast,omitempty"` // parties whose threads run before everybody else's
 	Prefix []int `json:"prefix,omitempty"`
+	// LeaderLate: the leader's Create is not ordered before the other parties: it happens on the leader's own
+	// thread, so that a party may call Join before the leader listens
+	LeaderLate bool `json:"leader_late,omitempty"`
 	// U: unbounded exploration with sleep sets (every Mazurkiewicz trace and every accept order)
 	U bool `json:"unbounded,omitempty"`
 }
@@ -61,13 +65,13 @@ func options(k cs) csched.Options {
 }
 
 type party struct {
-	id         int
-	err        error
-	connectOK  bool
-	tableAt    string // problem with the peer table when Connect returned
-	pingErr    string
-	closeErr   error
-	done       bool
+	id        int
+	err       error
+	connectOK bool
+	tableAt   string // problem with the peer table when Connect returned
+	pingErr   string
+	closeErr  error
+	done      bool
 }
 
 type world struct {
@@ -118,16 +122,28 @@ func system(k cs, w *world) func() {
 			w.ps[i] = &party{id: i}
 		}
 		// the leader listens first, as in real use; everything else is concurrent
-		leader, err := p2p.Create(addr(0), k.N, k.C)
-		if err != nil {
-			w.ps[0].err = err
-			return
+		var leader *p2p.Network
+		if !k.LeaderLate {
+			var err error
+			leader, err = p2p.Create(addr(0), k.N, k.C)
+			if err != nil {
+				w.ps[0].err = err
+				return
+			}
 		}
 		run := func(i int) func() {
 			return func() {
 				p := w.ps[i]
 				var nw *p2p.Network
-				if i == 0 {
+				if i == 0 && k.LeaderLate {
+					var err error
+					nw, err = p2p.Create(addr(0), k.N, k.C)
+					if err != nil {
+						p.err = fmt.Errorf("Create: %v", err)
+						p.done = true
+						return
+					}
+				} else if i == 0 {
 					nw = leader
 				} else {
 					var err error
@@ -203,6 +219,13 @@ func judge(k cs, w *world, r *csched.Result) (string, string) {
 	case "stuck":
 		return "HARNESS", r.Detail
 	case "deadlock":
+		if k.LeaderLate {
+			for _, p := range w.ps {
+				if p.err != nil && strings.Contains(p.err.Error(), "Join:") {
+					return "join-before-leader", fmt.Sprintf("party %d called Join before the leader was listening: %v; the others wait for it forever", p.id, p.err)
+				}
+			}
+		}
 		// say what the parties saw
 		var s []string
 		for _, p := range w.ps {
@@ -214,6 +237,9 @@ func judge(k cs, w *world, r *csched.Result) (string, string) {
 	}
 	for _, p := range w.ps {
 		if p.err != nil {
+			if k.LeaderLate && strings.Contains(p.err.Error(), "Join:") {
+				return "join-before-leader", fmt.Sprintf("party %d called Join before the leader was listening: %v (Join dials the leader once, there is no retry)", p.id, p.err)
+			}
 			return "setup-error", fmt.Sprintf("party %d: %v", p.id, p.err)
 		}
 		if p.tableAt != "" {
@@ -382,6 +408,11 @@ func work(ctx *runner.Ctx) {
 			}
 		}
 	}
+	// start orders in which a party may call Join before the leader listens
+	for _, o := range [][]int{{1, 0}, {0, 1}} {
+		cases = append(cases, cs{N: 2, C: 1, Order: o, P: 1, E: 0, F: 2, LeaderLate: true})
+	}
+	cases = append(cases, cs{N: 3, C: 1, Order: []int{2, 1, 0}, P: 0, E: 0, F: 1, LeaderLate: true})
 	ctx.Note(fmt.Sprintf("case list: %d systems (parties x connections x start order), each explored to its bound; every worker explores its share of each system's subtrees", len(cases)))
 	for i, k := range cases {
 		if ctx.Expired() {
